@@ -35,7 +35,7 @@ ANCHORS = ['convert:make_converter', 'convert:from_data', 'convert:convert', 'co
            'converters:DictConverter.collect_errors', 'converters:SequenceConverter.collect_errors',
            'converters:ConditionalConverter.collect_errors', 'classes:PaneConverter.collect_errors_struct',
            'classes:PaneConverter.collect_errors_tuple', 'converters:EnumConverter.__init__']
-MIN_COUNTERS = {'quick': {'boundary_calls': 20000, 'unsupported_checked': 100, 'outcome_converr': 5000, 'unprintable_value_cases': 60}}
+MIN_COUNTERS = {'quick': {'boundary_calls': 20000, 'unsupported_checked': 100, 'outcome_converr': 5000, 'unprintable_value_cases': 60, 'edge_form_calls': 80}}
 
 
 class TrapMapping(collections.abc.Mapping):
@@ -279,6 +279,92 @@ def run(ctx):
                           mech=f"unsupported-data:{desc.split('[')[0]}")
 
     drive.for_each_case(ctx, 'unsupported', max(20, ctx.budget // 10), body_unsupported, gen=lambda c, r: Ty('int'))
+
+    # documented forms met at their edges: conditions whose predicate has no __name__ (functools.partial, operator.itemgetter, a callable
+    # object) build like any other; a custom converter with only the three required methods serves a top-level scalar through convert()
+    if ctx.shard == 0:
+        import functools as _functools
+        import operator as _operator
+        A_ = env.m_annotations
+
+        class _Multiple:
+            def __init__(self, n): self.n = n
+            def __call__(self, v): return v % self.n == 0
+
+        class _EvenOnly(env.Converter):
+            def expected(self, plural=False): return 'even ints' if plural else 'an even int'
+            def try_convert(self, val):
+                if type(val) is int and val % 2 == 0: return val
+                raise env.ParseInterrupt()
+            def collect_errors(self, val):
+                return None if type(val) is int and val % 2 == 0 else env.m_errors.WrongTypeError(self.expected(), val)
+        edge = [
+            ('Condition(functools.partial)', lambda: t.Annotated[int, A_.Condition(_functools.partial(_operator.gt, 10))], [(5, True), (11, False), ('x', False)], None),
+            ('Condition(operator.itemgetter)', lambda: t.Annotated[t.List[int], A_.Condition(_operator.itemgetter(0))], [([1], True), ([0, 1], False), ([], False)], None),
+            ('Condition(callable object)', lambda: t.Annotated[int, A_.Condition(_Multiple(3))], [(9, True), (10, False)], None),
+            ('Positive & Condition(partial)', lambda: t.Annotated[int, A_.Positive & A_.Condition(_functools.partial(_operator.gt, 10))], [(5, True), (-1, False), (20, False)], None),
+            ('~Condition(partial)', lambda: t.Annotated[int, ~A_.Condition(_functools.partial(_operator.gt, 10))], [(20, True), (5, False)], None),
+            ('Condition.any(partial, Negative)', lambda: t.Annotated[int, A_.Condition.any(A_.Condition(_functools.partial(_operator.lt, 100)), A_.Negative)], [(200, True), (-5, True), (50, False)], None),
+            ('convert(scalar, int, custom={int: three-method converter})', lambda: int, [(4, True), (3, False), ('4', False)], {int: _EvenOnly()}),
+            ('convert(scalar, Union[str, int], custom=...)', lambda: t.Union[str, int], [(4, True), ('s', True), (3, False)], {int: _EvenOnly()}),
+            ('convert(list, List[int], custom=...)', lambda: t.List[int], [([4, 2], True), ([4, 3], False)], {int: _EvenOnly()}),
+        ]
+        class _Pairs(collections.abc.Mapping):
+            """A Mapping kept as a list of pairs: its keys need not be hashable."""
+            def __init__(self, pairs): self._p = list(pairs)
+            def __getitem__(self, k):
+                for kk, v in self._p:
+                    if kk == k: return v
+                raise KeyError(k)
+            def __iter__(self): return (k for k, _ in self._p)
+            def __len__(self): return len(self._p)
+            def __repr__(self): return f"Pairs({self._p!r})"
+
+        class _UP(env.PaneBase):
+            x: int = 0
+
+        class _UPX(env.PaneBase, allow_extra=True):
+            x: int = 0
+
+        class _UV1(env.PaneBase):
+            k: t.Literal['v1'] = 'v1'
+            x: int = 0
+
+        class _UV2(env.PaneBase):
+            k: t.Literal['v2'] = 'v2'
+        _bad = lambda *more: _Pairs([([1, 2], 3), *more])
+        edge += [
+            ('dataclass <- Mapping with an unhashable key', lambda: _UP, [(_bad(), False), (_bad(('x', 1)), False), (_Pairs([('x', 1)]), True)], None),
+            ('allow_extra dataclass <- Mapping with an unhashable key', lambda: _UPX, [(_bad(), True), (_bad(('x', 1)), True), (_bad(('x', 'no')), False)], None),
+            ('List[dataclass] <- unhashable key', lambda: t.List[_UP], [([_bad()], False)], None),
+            ('struct literal <- unhashable key', lambda: {'a': int}, [(_bad(('a', 1)), False), (_Pairs([('a', 1)]), True)], None),
+            ('internally tagged union <- unhashable key', lambda: t.Annotated[t.Union[_UV1, _UV2], A_.Tagged('k')], [(_bad(('k', 'v1')), False), (_Pairs([('k', 'v1'), ('x', 2)]), True)], None),
+            ('Union[int, dataclass] <- unhashable key', lambda: t.Union[int, _UP], [(_bad(), False)], None),
+            ('Dict[str, int] <- unhashable key', lambda: t.Dict[str, int], [(_bad(), False)], None),
+        ]
+        for j, (label, mkT, rows, custom) in enumerate(edge):
+            try:
+                built = observe(mkT)
+                conv = observe(lambda: env.make_converter(built.val)) if built.kind == 'value' and custom is None else built
+                ctx.count('edge_form_cases')
+                if built.kind != 'value' or conv.kind != 'value':
+                    ctx.violation('only-ConvertError-escapes', 'edge-forms', j, {'form': label, 'building': (built if built.kind != 'value' else conv).brief()[:300]},
+                                  mech=f"documented-form-fails-to-build:{label.split('(')[0]}")
+                    continue
+                for v, must in rows:
+                    for bname, call in (('from_data', lambda: env.from_data(v, built.val, custom=custom)), ('convert', lambda: env.convert(v, built.val, custom=custom)),
+                                        ('into_data', lambda: env.into_data(v, custom=custom) if must and custom is not None else env.from_data(v, built.val, custom=custom))):
+                        o = observe(call)
+                        ctx.count('edge_form_calls')
+                        ok = (o.kind == 'value') if must else (o.kind == 'converr')
+                        if ok and o.kind == 'converr':
+                            ok = observe(str, o.exc).kind == 'value'
+                        if not ok:
+                            ctx.violation('only-ConvertError-escapes', 'edge-forms', j, {'form': label, 'boundary': bname, 'value': short(v, 60), 'must_accept': must, 'outcome': o.brief()[:300]},
+                                          mech=f"edge-form:{bname}:{'refused' if must else type(o.exc).__name__ if o.kind == 'escape' else 'accepted'}")
+                            break
+            except Exception as e:
+                ctx.crash('edge-forms', j, e)
 
     # refused values that cannot be printed (an int too long for str()): still a ConvertError, and its text can still be had
     if ctx.shard == 0:
